@@ -65,27 +65,60 @@ theorem exit_non_matching_propagates_unlogged (env : Env) (cfg : Cfg) (d : Nat) 
     (h : g.flag = true ∨ cfg.isMatch e = false ∨ cfg.excluded e = true) :
     exit env cfg d (some e) g = (.propagate, g) := exit_uncaught env cfg d e g h
 
-/-- a handled exception: exactly one record at the configured level carrying `e` (depth +1 for
-    decorators), every callable invoked meanwhile sees its own outcome, flag reset; if `_log` raised
-    that error replaces `e` (no onerror); otherwise exactly one `onerror e` (whose error, if any,
-    replaces `e`); then suppressed iff `not reraise` -/
+/-- a handled exception: if some handler accepts the configured level, exactly one record at that
+    level carrying `e` (with the depth the call site adds) and every callable invoked meanwhile sees its
+    own outcome – below the handlers' least level, in particular with NO handler at all, no record;
+    flag reset; if `_log` raised, that error replaces `e` (no onerror); otherwise – record or not –
+    exactly one `onerror e`, and the callback RECEIVES A WORLD WHOSE GUARD FLAG IS CLEAR (it is arbitrary
+    user code: whatever catch()-protected code it calls behaves as anywhere else); its error, if any,
+    replaces `e`; then suppressed iff `not reraise` -/
 theorem exit_matching_logged_once (env : Env) (cfg : Cfg) (d : Nat) (e : Exc) (g : G)
     (hf : g.flag = false) (hm : cfg.isMatch e = true) (hx : cfg.excluded e = false) :
     exit env cfg d (some e) g =
+      let delivered := decide (env.minLevel ≤ cfg.level)
       let g2 : G := { flag := false,
-                      trace := g.trace ++ [.log cfg.level e d]
-                                 ++ env.probes.map (fun p => .probe p.out) }
-      match env.logRaises e with
+                      trace := g.trace ++ (if delivered then [.log cfg.level e d]
+                                 ++ env.probes.map (fun p => .probe p.out) else []) }
+      match (if delivered then env.logRaises e else none) with
       | some x => (.raise x, g2)
       | none =>
         match cfg.onerror with
         | none => (if cfg.reraise then .propagate else .suppress, g2)
         | some f =>
-          match f e with
-          | some x => (.raise x, g2.push (.onerror e))
-          | none => (if cfg.reraise then .propagate else .suppress, g2.push (.onerror e)) := by
+          match f e { flag := false, trace := g2.trace ++ [.onerror e] } with
+          | (some x, g5) => (.raise x, g5)
+          | (none, g5) => (if cfg.reraise then .propagate else .suppress, g5) := by
   rw [exit_caught env cfg d e g ⟨hf, hm, hx⟩]
-  rfl
+  unfold caughtResult afterLog logErr logEvents G.push
+  by_cases hl : cfg.level < env.minLevel
+  · have : ¬ env.minLevel ≤ cfg.level := by omega
+    simp only [hl, this, if_true, if_false, decide_false, List.append_nil, Bool.false_eq_true]
+    cases cfg.onerror with
+    | none => rfl
+    | some f => simp only; split <;> rename_i h5 <;> simp [h5]
+  · have : env.minLevel ≤ cfg.level := by omega
+    simp only [hl, this, if_true, if_false, decide_true, List.append_assoc, List.cons_append, List.nil_append]
+    cases env.logRaises e with
+    | some y => rfl
+    | none =>
+      cases cfg.onerror with
+      | none => rfl
+      | some f => simp only; split <;> rename_i h5 <;> simp [h5]
+
+/-- no handler accepts the level (e.g. `logger.remove()` left none): still exactly one `onerror e`,
+    suppression / re-raise as configured, and no record -/
+theorem exit_matching_without_handler (env : Env) (cfg : Cfg) (d : Nat) (e : Exc) (g : G)
+    (f : Exc → G → Option Exc × G)
+    (hf : g.flag = false) (hm : cfg.isMatch e = true) (hx : cfg.excluded e = false)
+    (hl : cfg.level < env.minLevel) (ho : cfg.onerror = some f) :
+    exit env cfg d (some e) g =
+      match f e { flag := false, trace := g.trace ++ [.onerror e] } with
+      | (some x, g5) => (.raise x, g5)
+      | (none, g5) => (if cfg.reraise then .propagate else .suppress, g5) := by
+  rw [exit_caught env cfg d e g ⟨hf, hm, hx⟩]
+  unfold caughtResult afterLog logErr logEvents G.push
+  simp only [hl, ho, if_true, List.append_nil]
+  split <;> rename_i h5 <;> simp [h5]
 
 /-- while the flag is set every nested `__exit__` propagates and touches nothing; consequently the
     budget for nested catching is irrelevant: the real (recursive) `__exit__` equals the one in which
@@ -106,8 +139,10 @@ theorem no_recursive_catch (env : Env) (n : Nat) (cfg : Cfg) (d : Nat) (e : Opti
       · rw [exitN_uncaught n env cfg d x g h, exitN_uncaught 0 env cfg d x g h]
 
 /-- the guard flag is reset on every path (no exception, not handled, handled, `_log` raising,
-    onerror raising): `__exit__` leaves it as it found it -/
-theorem guard_flag_reset_on_every_path (env : Env) (cfg : Cfg) (d : Nat) (e : Option Exc) (g : G) :
+    onerror raising): `__exit__` leaves it as it found it – provided the user's onerror code, which
+    is handed a clear flag, leaves it alone -/
+theorem guard_flag_reset_on_every_path (env : Env) (cfg : Cfg) (d : Nat) (e : Option Exc) (g : G)
+    (honerr : ∀ f, cfg.onerror = some f → ∀ x g', (f x g').2.flag = g'.flag) :
     (exit env cfg d e g).2.flag = g.flag := by
   cases e with
   | none => rw [exit_none]
@@ -119,7 +154,9 @@ theorem guard_flag_reset_on_every_path (env : Env) (cfg : Cfg) (d : Nat) (e : Op
       · rfl
       · split
         · rfl
-        · split <;> rfl
+        · rename_i f hfo
+          have hk := honerr f hfo x ((afterLog env cfg d x g).push (.onerror x))
+          split <;> rename_i heq <;> rw [heq] at hk <;> exact hk
     · rw [exit_uncaught env cfg d x g h]
 
 /-! ## plain functions and `with` / `async with` blocks (`runWith`; `callWrapped`, `withBlock` and `asyncWithBlock` are instances) -/
@@ -152,18 +189,61 @@ theorem fn_matching_escape_logged_once (env : Env) (cfg : Cfg) (d : Nat) (dflt :
 
 /-- the common case spelled out: `_log` and onerror do not raise -/
 theorem fn_matching_escape_default (env : Env) (cfg : Cfg) (body : G → CallRes × G) (g : G) (e : Exc) (g1 : G)
-    (f : Exc → Option Exc)
     (h : body g = (.raise e, g1)) (hf : g1.flag = false) (hm : cfg.isMatch e = true) (hx : cfg.excluded e = false)
-    (hl : env.logRaises e = none) (ho : cfg.onerror = some f) (hfe : f e = none) :
+    (hd : env.minLevel ≤ cfg.level)
+    (hl : env.logRaises e = none) (ho : cfg.onerror = some (fun _ g => (none, g))) :
     callWrapped (exit env) cfg body g =
       (if cfg.reraise then .raise e else .ret cfg.default,
        { flag := false,
          trace := g1.trace ++ [.log cfg.level e 1] ++ env.probes.map (fun p => .probe p.out) ++ [.onerror e] }) := by
   unfold callWrapped
   rw [fn_matching_escape_logged_once env cfg _ _ body g e g1 h hf hm hx]
-  unfold caughtResult afterLog
-  simp only [hl, ho, hfe, G.push]
-  cases cfg.reraise <;> rfl
+  have hnl : ¬ cfg.level < env.minLevel := by omega
+  unfold caughtResult afterLog logErr logEvents
+  simp only [hl, ho, hnl, if_false, G.push]
+  have hdd : decoratorDepth = 1 := by decide
+  cases cfg.reraise <;> simp [hdd]
+
+/-- an onerror callback that calls catch()-protected code (a decorated function under its own
+    configuration `c2`, raising `e2` which `c2` handles): that code behaves exactly as anywhere else –
+    ITS record, ITS onerror, its exception suppressed (then the outer call completes as configured) or
+    re-raised (then `e2` escapes the callback and replaces `e`).  This holds because `__exit__` hands the
+    callback a world whose guard flag is already clear. -/
+theorem onerror_nested_catch_logged_once (env : Env) (c1 c2 : Cfg) (d : Nat) (e e2 : Exc) (g : G)
+    (hf : g.flag = false) (hm : c1.isMatch e = true) (hx : c1.excluded e = false)
+    (hl : logErr env c1.level e = none)
+    (ho : c1.onerror = some (fun _ g' =>
+      match callWrapped (exit env) c2 (fun g => (.raise e2, g)) g' with
+      | (.ret _, g'') => (none, g'')
+      | (.raise x, g'') => (some x, g'')))
+    (hm2 : c2.isMatch e2 = true) (hx2 : c2.excluded e2 = false) :
+    exit env c1 d (some e) g =
+      match caughtResult env c2 decoratorDepth e2 ((afterLog env c1 d e g).push (.onerror e)) with
+      | (.suppress, g5) => (if c1.reraise then .propagate else .suppress, g5)
+      | (.propagate, g5) => (.raise e2, g5)
+      | (.raise x, g5) => (.raise x, g5) := by
+  rw [exit_caught env c1 d e g ⟨hf, hm, hx⟩]
+  unfold caughtResult
+  rw [hl, ho]
+  simp only
+  have hinner := fn_matching_escape_logged_once env c2 decoratorDepth c2.default (fun g => (.raise e2, g))
+    ((afterLog env c1 d e g).push (.onerror e)) e2 _ rfl rfl hm2 hx2
+  unfold callWrapped
+  rw [hinner]
+  unfold caughtResult
+  generalize logErr env c2.level e2 = le2
+  cases le2 with
+  | some y => rfl
+  | none =>
+    cases c2.onerror with
+    | none => cases c2.reraise <;> rfl
+    | some f2 =>
+      simp only
+      generalize f2 e2 _ = r5
+      obtain ⟨o5, g5⟩ := r5
+      cases o5 with
+      | some y => rfl
+      | none => cases c2.reraise <;> rfl
 
 /-! ## nested catchers (functions; for generators the theorems below compose, being stated over
     arbitrary automata – the inner wrapper is one) -/
@@ -184,7 +264,7 @@ theorem nested_reraise_each_logs_once (env : Env) (c1 c2 : Cfg) (body : G → Ca
     (h : body g = (.raise e, g1)) (hf : g1.flag = false)
     (h1 : c1.isMatch e = true ∧ c1.excluded e = false ∧ c1.reraise = true ∧ c1.onerror = none)
     (h2 : c2.isMatch e = true ∧ c2.excluded e = false ∧ c2.onerror = none)
-    (hl : env.logRaises e = none) :
+    (hl : env.logRaises e = none) (hd1 : env.minLevel ≤ c1.level) (hd2 : env.minLevel ≤ c2.level) :
     callWrapped (exit env) c2 (callWrapped (exit env) c1 body) g =
       (if c2.reraise then .raise e else .ret c2.default,
        { flag := false,
@@ -195,10 +275,13 @@ theorem nested_reraise_each_logs_once (env : Env) (c1 c2 : Cfg) (body : G → Ca
   have hinner : callWrapped (exit env) c1 body g = (.raise e, afterLog env c1 decoratorDepth e g1) := by
     unfold callWrapped
     rw [fn_matching_escape_logged_once env c1 decoratorDepth _ body g e g1 h hf m1 x1]
-    simp [caughtResult, hl, o1, r1]
+    have : ¬ c1.level < env.minLevel := by omega
+    simp [caughtResult, logErr, this, hl, o1, r1]
   unfold callWrapped at hinner ⊢
   rw [fn_matching_escape_logged_once env c2 decoratorDepth _ _ g e _ hinner rfl m2 x2]
-  simp only [caughtResult, hl, o2, afterLog]
+  have hn1 : ¬ c1.level < env.minLevel := by omega
+  have hn2 : ¬ c2.level < env.minLevel := by omega
+  simp only [caughtResult, logErr, logEvents, hn1, hn2, if_false, hl, o2, afterLog]
   have hdd : decoratorDepth = 1 := by decide
   cases c2.reraise <;> simp [hdd]
 
@@ -314,7 +397,7 @@ def cfgDefault : Cfg :=
   { isMatch := fun e => e.cls ≥ 3, excluded := fun _ => false, reraise := false, level := 40, default := 7,
     onerror := none }
 def cfgBase : Cfg := { cfgDefault with isMatch := fun _ => true }
-def env0 : Env := { probes := [], logRaises := fun _ => none }
+def env0 : Env := { probes := [], logRaises := fun _ => none, minLevel := 0 }
 def g0 : G := ⟨false, []⟩
 
 /-- `yield 1`, then: on GeneratorExit `onGenExit`, on another throw `raise ⟨8,101⟩`, on send `yield 2` -/
